@@ -409,6 +409,72 @@ theorem add_never_nil_deref (c0 : List Blk) (s : PState) (hr : Reachable c0 s) (
         · repeat' split
           all_goals simp
 
+/-- T4 `rebuild_spec` (one address, rebuild not skipped): after a momentum that extends the confirmed chain by `nb`, the
+    pool holds exactly the previously pooled blocks above the new confirmed height if they (still) link to the new
+    confirmed frontier, and nothing otherwise; the confirmed chain is the extended one; `rebuild` never meets a missing
+    height (no nil dereference). -/
+theorem rebuild_spec (c0 : List Blk) (s : PState) (hr : Reachable c0 s) (nb : List Blk) (hop : OpOK s (.insert nb)) :
+    (insertMomentum s nb false).1.confirmed = s.confirmed ++ nb ∧
+    (insertMomentum s nb false).1.manager.pooled =
+      (if Linked (lastId (s.confirmed ++ nb)) (s.manager.pooled.drop nb.length)
+       then s.manager.pooled.drop nb.length else []) ∧
+    (insertMomentum s nb false).2 ≠ .nilDeref := by
+  have hi := reachable_inv hr
+  have hc : Linked zeroId (s.confirmed ++ nb) := (linked_append nb s.confirmed zeroId).mpr ⟨hi.1, hop.1⟩
+  have hhc : HeightsOK (s.confirmed ++ nb) := heightsOK_append.mpr ⟨hi.2.1, hop.2⟩
+  cases hm : s.mgr with
+  | none =>
+    have hp : s.manager.pooled = [] := by simp [PState.manager, hm]
+    simp [insertMomentum, hm, PState.manager, Linked]
+  | some old =>
+    obtain ⟨hb, hl, hh⟩ := hi.2.2 old hm
+    have hp : s.manager = old := by simp [PState.manager, hm]
+    rw [hp]
+    -- the old frontier view is a chain, so reading heights gives slices
+    have hview : Linked zeroId (old.base ++ old.pooled) := by
+      rw [hb, linked_append]; exact ⟨hi.1, by rw [← lastId_eq]; exact hl⟩
+    have hvh : HeightsOK (old.base ++ old.pooled) := heightsOK_append.mpr ⟨by rw [hb]; exact hi.2.1, hh⟩
+    have hlo := chain_last_height _ hc hhc
+    have hhi := chain_last_height _ hview hvh
+    have hunc : uncommittedOf (old.base ++ old.pooled) ((lastId (s.confirmed ++ nb)).2 + 1)
+        ((lastId (old.base ++ old.pooled)).2 + 1 - ((lastId (s.confirmed ++ nb)).2 + 1)) =
+        some (old.pooled.drop nb.length) := by
+      rw [hlo, hhi]
+      simp only [List.length_append, hb]
+      by_cases hle : old.pooled.length ≤ nb.length
+      · have h0 : s.confirmed.length + old.pooled.length + 1 - (s.confirmed.length + nb.length + 1) = 0 := by omega
+        rw [h0, List.drop_eq_nil_of_le hle]; rfl
+      · rw [← hb]
+        rw [uncommittedOf_chain _ hview hvh _ (by omega) _ (by simp only [List.length_append, hb]; omega)]
+        have e1 : old.base.length + nb.length + 1 - 1 = old.base.length + nb.length := by omega
+        rw [e1, List.drop_append]
+        have e2 : List.drop (old.base.length + nb.length) old.base = [] := List.drop_eq_nil_of_le (by omega)
+        have e3 : old.base.length + nb.length - old.base.length = nb.length := by omega
+        rw [e2, e3, List.nil_append, List.take_of_length_le (by simp only [List.length_drop]; omega)]
+    -- the slice is internally linked
+    have hinner : Linked (lastIdFrom (lastId s.confirmed) (old.pooled.take nb.length)) (old.pooled.drop nb.length) := by
+      have := hl
+      rw [← List.take_append_drop nb.length old.pooled, linked_append] at this
+      exact this.2
+    refine ⟨?_, ?_, ?_⟩
+    · simp only [insertMomentum, hm]; repeat' split
+      all_goals rfl
+    · simp only [insertMomentum, hm, Bool.false_eq_true, if_false, hunc]
+      generalize old.pooled.drop nb.length = rest at hinner ⊢
+      cases rest with
+      | nil => simp [PState.manager, Linked]
+      | cons b bs =>
+        by_cases hlk : Linked (lastId (s.confirmed ++ nb)) (b :: bs)
+        · have := addAll_linked (b :: bs) ⟨s.confirmed ++ nb, []⟩ (by simpa [Mgr.frontierId] using hlk)
+          simp [this, hlk, PState.manager]
+        · have hne : b.prev ≠ (⟨s.confirmed ++ nb, []⟩ : Mgr).frontierId := by
+            intro he
+            exact hlk ⟨by simpa [Mgr.frontierId] using he, hinner.2⟩
+          simp [addAll_unlinked b bs _ hne, hlk, PState.manager]
+    · simp only [insertMomentum, hm, Bool.false_eq_true, if_false, hunc]
+      repeat' split
+      all_goals simp_all
+
 /-- negative witness (finding F15): a competitor for an account's FIRST block is refused whatever its priority —
     `canRollback` asks the frontier store for the block at height 0, which never exists. On an empty account the pooled
     block `a` (ratio 1) is kept against `b` (ratio 2, same previous = zero identifier) although `higherPriority b a`
